@@ -40,6 +40,20 @@ Theorem C19_names_have_no_separator : forall n, ~ In SLASH (repl_sep n).
 Proof. exact repl_sep_no_slash. Qed.
 Print Assumptions C19_names_have_no_separator.
 
+(* the text codecs (errors="replace") for latin-1 and ascii: identity on representable text,
+   bytes out; and the whole chain items -> text -> bytes -> text -> items *)
+Theorem C19_codec_roundtrip : forall c s,
+  forallb (representable c) s = true -> decode_repl c (encode_repl c s) = s.
+Proof. exact codec_roundtrip_lemma. Qed.
+Print Assumptions C19_codec_roundtrip.
+
+Theorem C19_saved_bytes_load : forall c raises locals items,
+  Forall line_safe items -> Forall (fun it => mem_str (fst it) raises = false) items ->
+  forallb (representable c) (dump_items items) = true ->
+  load_items raises locals (decode_repl c (encode_repl c (dump_items items))) = Ok items.
+Proof. exact saved_bytes_load_lemma. Qed.
+Print Assumptions C19_saved_bytes_load.
+
 (* path -> URI -> path is the identity at byte level, for every byte string: the
    transcription of urllib.parse.quote_from_bytes / unquote_to_bytes (no longer an oracle) *)
 Theorem C19_uri_path_roundtrip : forall bs,
